@@ -368,7 +368,8 @@ class PropertyTimeRangeMatcher:
 
     def match(self, prop, tzify):
         dt = tzify(prop.dt)
-        return dt >= self.start and dt <= self.end
+        # RFC 4791, 9.9: start is inclusive, end is not.
+        return dt >= self.start and dt < self.end
 
     def match_indexes(self, prop: SubIndexDict, tzify: TzifyFunction):
         return any(
